@@ -506,3 +506,66 @@ def explain_twice(*a):
 
 
 EXPLAIN["_twice"] = explain_twice
+
+
+# ------------------------------------------------------------------ C14: the spelling of the root does not matter
+ROOT_SPELLINGS = ["/proj", ".", "proj", "../proj", "./proj/../proj"]
+DIR_NAMES = ["a", "+a", "(a)", "-a", "#a", "_a", "~a"]
+
+
+@native
+def _spell_objects(root, dname, s0, s1):
+    from pathlib import Path as _P
+
+    tomls = []
+    if s0 is not None:
+        tomls.append(ReuseTOML(version=1, source=str(_P(root) / "REUSE.toml"), annotations=[_item(0, s0[0], s0[1])]))
+    if s1 is not None:
+        tomls.append(ReuseTOML(version=1, source=str(_P(root) / dname / "REUSE.toml"), annotations=[_item(1, s1[0], s1[1])]))
+    return tomls
+
+
+def _spell_story(r, d, o, l0, l1):
+    own = OWN[_pick(o, 4)]
+    dname = DIR_NAMES[_pick(d, len(DIR_NAMES))]
+    s0 = SHAPES[_pick(l0, 13)]
+    s1 = SHAPES[_pick(l1, 13)]
+    spelled = ROOT_SPELLINGS[_pick(r, len(ROOT_SPELLINGS))]
+
+    def run(root):
+        tomls = _spell_objects(root, dname, s0, s1)
+        gl = NestedReuseTOML(reuse_tomls=list(reversed(tomls)), source=str(Path(root))) if tomls else None
+        if gl is None:
+            return []
+        res = gl.reuse_info_of(f"{dname}/f.py")
+        out = []
+        for prec, infos in sorted(res.items(), key=lambda kv: kv[0].value):
+            for i in infos:
+                out.append((prec.value, i.source_path, tuple(sorted(i.copyright_lines)), tuple(sorted(str(e) for e in i.spdx_expressions))))
+        return out
+
+    a, b = run("/proj"), run(spelled)
+    return a == b, {"root": spelled, "dir": dname, "levels": [s0, s1], "absolute_root": a, "spelled_root": b}
+
+
+def _spell(r: int, d: int, o: int, l0: int, l1: int) -> bool:
+    """
+    pre: (r == PARAMS["r"] if "r" in PARAMS else 0 <= r < len(ROOT_SPELLINGS)) and 0 <= d < len(DIR_NAMES) and o == 0 and 0 <= l0 < 13 and 0 <= l1 < 13
+    post: _
+    """
+    return _spell_story(r, d, o, l0, l1)[0]
+
+
+def _spell_reach(r: int, d: int, o: int, l0: int, l1: int) -> bool:
+    """
+    pre: (r == PARAMS["r"] if "r" in PARAMS else 0 <= r < len(ROOT_SPELLINGS)) and 0 <= d < len(DIR_NAMES) and o == 0 and 0 <= l0 < 13 and 0 <= l1 < 13
+    post: False
+    """
+    return _spell_story(r, d, o, l0, l1)[0]
+
+
+def explain_spell(*a):
+    return _spell_story(*a)[1]
+
+
+EXPLAIN["_spell"] = explain_spell
